@@ -143,6 +143,9 @@ Unhashable(heap, v) ==
   IsRef(v) /\ (\/ heap[v.a].cls \in {"list", "dict", "odict", "set"}
                \/ heap[v.a].cls = "tuple" /\ \E j \in 1..Len(heap[v.a].items) : Unhashable(heap, heap[v.a].items[j]))
 
+\* everything but iteration treats a "badlist" as the list it is
+AsList(heap) == [a \in 1..Len(heap) |-> IF heap[a].cls = "badlist" THEN [heap[a] EXCEPT !.cls = "list"] ELSE heap[a]]
+
 \* cur[arg] including slices; may allocate
 GetItemX(heap, cur, arg) ==
   IF arg.k # "slice" THEN
@@ -154,6 +157,8 @@ GetItemX(heap, cur, arg) ==
          THEN (IF Unhashable(heap, arg) THEN R(heap, Exc("TypeError"))
                ELSE IF HasKey(heap[cur.a].items, arg) THEN R(heap, OutOfModel) ELSE R(heap, Exc("KeyError")))
          ELSE R(heap, Exc("TypeError")))
+     ELSE IF IsRef(cur) /\ heap[cur.a].cls = "badlist"
+     THEN (IF arg.k \in {"int", "str"} THEN R(heap, GetItem(AsList(heap), cur, arg)) ELSE R(heap, OutOfModel))
      ELSE IF IsRef(cur) /\ heap[cur.a].cls = "baddict"
      THEN (IF arg = VStr("b") THEN R(heap, Exc("RuntimeError"))
            ELSE IF HasKey(heap[cur.a].items, arg) THEN R(heap, Ok(Lookup(heap[cur.a].items, arg))) ELSE R(heap, Exc("KeyError")))
@@ -192,10 +197,18 @@ CallFn(heap, f, args, kwargs) ==
 \* ---- wildcards: children with element access that may raise ------------------------------------
 \* cells of class "baddict" are dict subclasses whose __getitem__ raises for key "b":
 \* such entries are dropped from the children (the traversal tolerates misses)
+\* cells of class "badlist" are list subclasses whose ITERATION raises when it reaches the item "!"
+\* (a live iterator failing part-way): the items produced before the failure are its children --
+\* a traversal that tolerates misses does not throw away what the iterable did produce
+Poison == VStr("!")
+RECURSIVE UpToPoison(_, _)
+UpToPoison(items, i) ==
+  IF i > Len(items) \/ items[i] = Poison THEN SubSeq(items, 1, i - 1) ELSE UpToPoison(items, i + 1)
 ChildrenX(heap, cur) ==
   IF ~IsRef(cur) THEN <<>>
   ELSE LET c == heap[cur.a] IN
-       IF c.cls = "baddict"
+       IF c.cls = "badlist" THEN UpToPoison(c.items, 1)
+       ELSE IF c.cls = "baddict"
        THEN LET good == SelectSeq(c.items, LAMBDA it : it[1] # VStr("b")) IN [i \in 1..Len(good) |-> good[i][2]]
        ELSE IF c.cls \in MapClasses THEN [i \in 1..Len(c.items) |-> c.items[i][2]]
        ELSE c.items
@@ -213,7 +226,8 @@ Descendants(heap, cur) == Bfs(heap, <<cur>>, 1, {})
 
 \* element access on a "baddict" raises RuntimeError for key "b", otherwise it is a dict
 StepApplyX(heap, cur, st) ==
-  IF IsRef(cur) /\ heap[cur.a].cls = "baddict" /\ st.op \in {"P", "["}
+  IF IsRef(cur) /\ heap[cur.a].cls = "badlist" THEN StepApply(AsList(heap), cur, st)
+  ELSE IF IsRef(cur) /\ heap[cur.a].cls = "baddict" /\ st.op \in {"P", "["}
   THEN IF st.arg = VStr("b") THEN Exc("RuntimeError")
        ELSE IF HasKey(heap[cur.a].items, st.arg) THEN Ok(Lookup(heap[cur.a].items, st.arg)) ELSE Exc("KeyError")
   ELSE StepApply(heap, cur, st)
